@@ -5,7 +5,7 @@ use proptest::prelude::*;
 use serde::{Deserialize, Serialize};
 use serde_json::json;
 
-const RULE: &str = "cases = (element type, slice length, index a, index b, function group); oracle = slice::get / get(range) / split_at / <&[T;N]>::try_from / as_chunks on the same slice, results compared by address+length, _mut variants additionally written through; non-trivial = index >= len-1 or beyond len, or start>end, or a zero-sized / Drop element type; distinct by (type,len,a,b,group)";
+const RULE: &str = "cases = (element type, slice length, index a, index b, function group); oracle = slice::get / get(range) / split_at / <&[T;N]>::try_from / as_chunks on the same slice, results compared by address+length, _mut variants additionally written through; non-trivial = index >= len-1 or beyond len, or start>end, or a zero-sized / Drop element type, or a zero-sized-element slice longer than isize::MAX (result lengths compared); distinct by (type,len,a,b,group)";
 
 #[derive(Serialize, Deserialize, Debug, Clone, Copy, Hash, PartialEq, Eq)]
 enum Elem {
@@ -25,6 +25,8 @@ enum Group {
     Idx,
     /// (start,end) functions
     Range,
+    /// every function above on a slice of zero-sized elements that is longer than isize::MAX (lengths only)
+    HugeZst,
 }
 
 #[derive(Serialize, Deserialize, Debug, Clone, Hash)]
@@ -393,13 +395,63 @@ fn check_len<T: El>(len: usize) -> Result<(), String> {
     Ok(())
 }
 
+/// slices of zero-sized elements may be longer than isize::MAX elements; only lengths can be compared
+/// (all addresses coincide), and nothing is written element by element
+fn check_huge_zst(len: usize, a: usize, b: usize) -> Result<(), String> {
+    static BIG: [(); usize::MAX] = [(); usize::MAX];
+    let s: &[()] = &BIG[..len];
+    let l = |o: Option<&[()]>| o.map(|x| x.len());
+    ensure!(ks::get(s, a).is_some() == s.get(a).is_some(), "get({a}) on {len} x (): konst {:?}", ks::get(s, a).is_some());
+    ensure!(l(ks::get_from(s, a)) == l(s.get(a..)), "get_from({a}) on {len} x (): konst {:?} std {:?}", l(ks::get_from(s, a)), l(s.get(a..)));
+    ensure!(ks::slice_from(s, a).len() == l(s.get(a..)).unwrap_or(0), "slice_from({a}) on {len} x (): konst len {} expected {}", ks::slice_from(s, a).len(), l(s.get(a..)).unwrap_or(0));
+    ensure!(l(ks::get_up_to(s, a)) == l(s.get(..a)), "get_up_to({a}) on {len} x (): konst {:?} std {:?}", l(ks::get_up_to(s, a)), l(s.get(..a)));
+    ensure!(ks::slice_up_to(s, a).len() == a.min(len), "slice_up_to({a}) on {len} x (): konst len {}", ks::slice_up_to(s, a).len());
+    let at = a.min(len);
+    let (x, y) = ks::split_at(s, a);
+    ensure!(x.len() == at && y.len() == len - at, "split_at({a}) on {len} x (): konst ({}, {}) expected ({at}, {})", x.len(), y.len(), len - at);
+    ensure!(l(ks::get_range(s, a, b)) == l(s.get(a..b)), "get_range({a},{b}) on {len} x (): konst {:?} std {:?}", l(ks::get_range(s, a, b)), l(s.get(a..b)));
+    let (a2, b2) = (a.min(len), b.min(len));
+    let want = if a2 <= b2 { b2 - a2 } else { 0 };
+    ensure!(ks::slice_range(s, a, b).len() == want, "slice_range({a},{b}) on {len} x (): konst len {} expected {want}", ks::slice_range(s, a, b).len());
+    // _mut variants on an owned array of the same kind
+    let mut big = [(); usize::MAX];
+    let m: &mut [()] = &mut big[..len];
+    ensure!(ks::get_mut(m, a).is_some() == (a < len), "get_mut({a}) on {len} x ()");
+    ensure!(ks::get_from_mut(m, a).map(|x| x.len()) == if a <= len { Some(len - a) } else { None }, "get_from_mut({a}) on {len} x (): konst {:?}", ks::get_from_mut(m, a).map(|x| x.len()));
+    ensure!(ks::slice_from_mut(m, a).len() == len - at, "slice_from_mut({a}) on {len} x (): konst len {}", ks::slice_from_mut(m, a).len());
+    ensure!(ks::get_up_to_mut(m, a).map(|x| x.len()) == if a <= len { Some(a) } else { None }, "get_up_to_mut({a}) on {len} x ()");
+    ensure!(ks::slice_up_to_mut(m, a).len() == at, "slice_up_to_mut({a}) on {len} x ()");
+    let (x, y) = ks::split_at_mut(m, a);
+    ensure!(x.len() == at && y.len() == len - at, "split_at_mut({a}) on {len} x (): konst ({}, {})", x.len(), y.len());
+    ensure!(ks::get_range_mut(m, a, b).map(|x| x.len()) == l(s.get(a..b)), "get_range_mut({a},{b}) on {len} x (): konst {:?}", ks::get_range_mut(m, a, b).map(|x| x.len()));
+    ensure!(ks::slice_range_mut(m, a, b).len() == want, "slice_range_mut({a},{b}) on {len} x (): konst len {}", ks::slice_range_mut(m, a, b).len());
+    // chunk conversions
+    macro_rules! chunks {
+        ($($n:literal)*) => {$(
+            let (kc, kr) = ks::as_chunks::<(), $n>(s);
+            let (oc, or) = s.as_chunks::<$n>();
+            ensure!(kc.len() == oc.len() && kr.len() == or.len(), "as_chunks::<{}> on {len} x (): konst ({}, {}) std ({}, {})", $n, kc.len(), kr.len(), oc.len(), or.len());
+            let (kr, kc) = ks::as_rchunks::<(), $n>(s);
+            let (or, oc) = s.as_rchunks::<$n>();
+            ensure!(kc.len() == oc.len() && kr.len() == or.len(), "as_rchunks::<{}> on {len} x (): konst ({}, {}) std ({}, {})", $n, kr.len(), kc.len(), or.len(), oc.len());
+        )*};
+    }
+    chunks!(1 2 3 7 4096);
+    ensure!(ks::try_into_array::<(), 3>(s).is_ok() == (len == 3), "try_into_array::<3> on {len} x ()");
+    Ok(())
+}
+
 pub fn run_case(c: &Case) -> Result<(), String> {
+    if c.group == Group::HugeZst {
+        return check_huge_zst(c.len, c.a, c.b);
+    }
     macro_rules! dispatch {
         ($t:ty) => {
             match c.group {
                 Group::Len => check_len::<$t>(c.len),
                 Group::Idx => check_idx::<$t>(c.len, c.a),
                 Group::Range => check_range::<$t>(c.len, c.a, c.b),
+                Group::HugeZst => unreachable!(),
             }
         };
     }
@@ -422,6 +474,7 @@ fn eval(ctx: &mut Ctx, c: Case) {
                 || c.a > c.b
                 || matches!(c.elem, Elem::Unit | Elem::Str)
         }
+        Group::HugeZst => true,
     };
     ctx.case("slice_index", &c, |ctx| {
         match c.group {
@@ -430,6 +483,12 @@ fn eval(ctx: &mut Ctx, c: Case) {
                 ctx.label(if c.a > c.len { "idx>len" } else if c.a == c.len { "idx==len" } else { "idx<len" });
                 if c.a >= isize::MAX as usize {
                     ctx.label("idx>=isize::MAX");
+                }
+            }
+            Group::HugeZst => {
+                ctx.label("huge_zst");
+                if c.a > isize::MAX as usize && c.a <= c.len {
+                    ctx.label("huge_zst:valid index > isize::MAX");
                 }
             }
             Group::Range => {
@@ -475,6 +534,20 @@ fn explore(ctx: &mut Ctx) {
         "lengths {{0..={},64,1000}} x 5 element types x index set {{0..=len+2, usize::MAX, usize::MAX-1, isize::MAX-1..=isize::MAX+1, usize::MAX-len(+1)}} x all pairs; N in {{0,1,2,3,4,5,7,8}} for array/chunk conversions",
         ctx.by_tier(16, 33)
     ));
+    // zero-sized elements, more than isize::MAX of them
+    let im = isize::MAX as usize;
+    for len in [im - 1, im, im + 1, im + 12_345, (im / 2) * 3, usize::MAX - 1, usize::MAX] {
+        let mut idx = vec![0, 1, 2, 4095, 4096, 1 << 62, im - 1, im, im + 1, im + 2, im + 7, im + 12_344, (im / 2) * 3, usize::MAX - 1, usize::MAX];
+        idx.extend_from_slice(&[len.wrapping_sub(2), len.wrapping_sub(1), len, len.wrapping_add(1)]);
+        idx.sort_unstable();
+        idx.dedup();
+        for &a in &idx {
+            for &b in &idx {
+                eval(ctx, Case { elem: Elem::Unit, group: Group::HugeZst, len, a, b });
+            }
+        }
+    }
+    ctx.exhaustive_part("zero-sized elements: 7 slice lengths from isize::MAX-1 to usize::MAX x 19 indices^2 (incl. valid indices above isize::MAX), lengths of all results compared with std");
     // random: arbitrary usize indices, lengths up to 200
     let n = ctx.by_tier(200_000, 2_000_000);
     let strat = (
